@@ -95,6 +95,8 @@ _LCD_ANIMATION_START_FUNCS: Dict[str, str] = {
     "bounce": "__redu_lcd_start_bounce",
 }
 
+_LCD_TICK_PLACEHOLDER = "\x00__redu_lcd_tick__\x00"
+
 _LCD_ANIMATION_TICK_FUNCS: Dict[str, str] = {
     "scroll": "__redu_lcd_tick_scroll",
     "blink": "__redu_lcd_tick_blink",
@@ -1556,13 +1558,9 @@ def _emit_block(
             info = _ensure_lcd(node.name)
             if info is None:
                 continue
-            for anim_var, anim_kind in lcd_animations.get(node.name, []):
-                tick_func = _LCD_ANIMATION_TICK_FUNCS.get(anim_kind)
-                if tick_func is None:
-                    continue
-                lines.append(
-                    f"{indent}{tick_func}({anim_var}, {info['object']}, {info['cols_var']});"
-                )
+            # Animations started later in the same body are not registered yet:
+            # leave a placeholder that emit() expands once every block is emitted.
+            lines.append(f"{_LCD_TICK_PLACEHOLDER}{node.name}\x00{indent}")
             continue
 
         if isinstance(node, VarDecl):
@@ -3049,6 +3047,28 @@ def emit(ast: Program) -> str:
             ultrasonic_pin_modes=ultrasonic_pin_modes,
         )
     )
+
+    def _expand_lcd_ticks(block_lines: List[str]) -> List[str]:
+        expanded: List[str] = []
+        for line in block_lines:
+            if not line.startswith(_LCD_TICK_PLACEHOLDER):
+                expanded.append(line)
+                continue
+            lcd_name, tick_indent = line[len(_LCD_TICK_PLACEHOLDER):].split("\x00", 1)
+            info = lcd_state.get(lcd_name)
+            if info is None:
+                continue
+            for anim_var, anim_kind in lcd_animations.get(lcd_name, []):
+                tick_func = _LCD_ANIMATION_TICK_FUNCS.get(anim_kind)
+                if tick_func is None:
+                    continue
+                expanded.append(
+                    f"{tick_indent}{tick_func}({anim_var}, {info['object']}, {info['cols_var']});"
+                )
+        return expanded
+
+    setup_lines = _expand_lcd_ticks(setup_lines)
+    loop_lines = _expand_lcd_ticks(loop_lines)
 
     if lcd_state:
         for name, vars in lcd_animations.items():
